@@ -80,24 +80,25 @@ func roleOf(a sdk.Address) string {
 
 // EnvCfg: everything that parametrises a replica besides its blocks.
 type EnvCfg struct {
-	BaseHeight       int64    `json:"base_height"`    // the chain starts right above this height (mainnet-era code paths); 0 = from height 1
-	FeatureHeight    int64    `json:"feature_height"` // activation height of every named feature
-	BlocksPerSession int64    `json:"blocks_per_session"`
-	ClaimWindow      int64    `json:"claim_window"`
-	ClaimExpiration  int64    `json:"claim_expiration"`
-	SessionNodeCount int64    `json:"session_node_count"`
-	MaxValidators    int64    `json:"max_validators"`
-	MaxApplications  int64    `json:"max_applications"`
-	UnstakingBlocks  int64    `json:"unstaking_blocks"` // unstaking time in block intervals
-	MinProofs        int64    `json:"min_proofs"`
-	StateCache       bool     `json:"state_cache"`
-	Genesis          string   `json:"genesis"`                // named genesis variant
-	Warmup           int      `json:"warmup"`                 // blocks executed before the explored history (the last one carries Setup)
-	Setup            []TxSpec `json:"setup,omitempty"`        // transactions of the last warm-up block; all must succeed
-	Proposer         string   `json:"proposer,omitempty"`     // default block proposer (N1)
-	LocalNode        string   `json:"local_node,omitempty"`   // servicer identity of this process (default N1)
-	BaseRelays       int64    `json:"base_relays,omitempty"`  // application BaseRelaysPerPOKT (default: the module default, 100)
-	GenesisJSON      string   `json:"genesis_json,omitempty"` // start from this (exported) application state instead of the built-in genesis
+	BaseHeight       int64            `json:"base_height"`          // the chain starts right above this height (mainnet-era code paths); 0 = from height 1
+	FeatureHeight    int64            `json:"feature_height"`       // activation height of every named feature
+	FeatureAt        map[string]int64 `json:"feature_at,omitempty"` // per-feature activation heights overriding FeatureHeight
+	BlocksPerSession int64            `json:"blocks_per_session"`
+	ClaimWindow      int64            `json:"claim_window"`
+	ClaimExpiration  int64            `json:"claim_expiration"`
+	SessionNodeCount int64            `json:"session_node_count"`
+	MaxValidators    int64            `json:"max_validators"`
+	MaxApplications  int64            `json:"max_applications"`
+	UnstakingBlocks  int64            `json:"unstaking_blocks"` // unstaking time in block intervals
+	MinProofs        int64            `json:"min_proofs"`
+	StateCache       bool             `json:"state_cache"`
+	Genesis          string           `json:"genesis"`                // named genesis variant
+	Warmup           int              `json:"warmup"`                 // blocks executed before the explored history (the last one carries Setup)
+	Setup            []TxSpec         `json:"setup,omitempty"`        // transactions of the last warm-up block; all must succeed
+	Proposer         string           `json:"proposer,omitempty"`     // default block proposer (N1)
+	LocalNode        string           `json:"local_node,omitempty"`   // servicer identity of this process (default N1)
+	BaseRelays       int64            `json:"base_relays,omitempty"`  // application BaseRelaysPerPOKT (default: the module default, 100)
+	GenesisJSON      string           `json:"genesis_json,omitempty"` // start from this (exported) application state instead of the built-in genesis
 }
 
 func defaultEnv() EnvCfg {
@@ -127,12 +128,26 @@ func featureList(h int64) []string {
 	return f
 }
 
+// envFeatures: the upgrade schedule of an environment (FeatureHeight for every feature unless FeatureAt names another height).
+func envFeatures(env EnvCfg) []string {
+	var f []string
+	for _, k := range allFeatureKeys {
+		h := env.FeatureHeight
+		if o, ok := env.FeatureAt[k]; ok {
+			h = o
+		}
+		f = append(f, fmt.Sprintf("%s:%d", k, h))
+	}
+	sort.Strings(f)
+	return f
+}
+
 // resetGlobals puts every process-global the application uses into the state of a freshly started node
 // that already knows the upgrade schedule (as a node restarted from its DB would).
 func resetGlobals(env EnvCfg) {
 	codec.TestMode = 0
 	codec.OldUpgradeHeight, codec.UpgradeHeight = envUpgradeHeights(env)
-	codec.UpgradeFeatureMap = codec.SliceToMap(featureList(env.FeatureHeight))
+	codec.UpgradeFeatureMap = codec.SliceToMap(envFeatures(env))
 	sdk.InitCtxCache(20)
 	sdk.VbCCache = sdk.NewCache(20)
 	cfg := sdk.DefaultTestingPocketConfig()
@@ -260,7 +275,7 @@ func buildGenesis(env EnvCfg) app.GenesisState {
 	gv.Params.ACL = acl
 	gv.Params.DAOOwner = caddr("D")
 	oldH, curH := envUpgradeHeights(env)
-	gv.Params.Upgrade = govTypes.Upgrade{Height: curH, Version: "0.11.0", OldUpgradeHeight: oldH, Features: featureList(env.FeatureHeight)}
+	gv.Params.Upgrade = govTypes.Upgrade{Height: curH, Version: "0.11.0", OldUpgradeHeight: oldH, Features: envFeatures(env)}
 	gv.DAOTokens = sdk.NewInt(daoFunds)
 	gen[govTypes.ModuleName] = cdc.MustMarshalJSON(gv)
 	return gen
@@ -728,6 +743,16 @@ func (r *replica) runBlock(b BlockSpec) BlockRes {
 
 // ctxNow: a context over the live (working == last committed) state, for read-only inspection.
 func (r *replica) ctxNow() sdk.Context {
+	// the context a running node hands to dispatch / relay / query code: PocketCoreApp.NewContext(last height), whose
+	// header is the one PrevCtx rebuilds from the block store (the session block hash is a hash of that header, so a
+	// differently assembled header would give the off-chain side other sessions than claim validation regenerates)
+	if r.bs.LoadBlockMeta(r.height) != nil {
+		if ctx, err := r.app.NewContext(r.height); err == nil {
+			if c, ok := ctx.(sdk.Context); ok {
+				return c.WithLogger(bufLogger{r.logbuf}).WithAppVersion(app.AppVersion)
+			}
+		}
+	}
 	hdr := abci.Header{ChainID: chainID, Height: r.height, Time: r.time}
 	if meta := r.bs.LoadBlockMeta(r.height); meta != nil {
 		// the header of the last executed block, as a node's own context for that height carries it
